@@ -1,3 +1,69 @@
 # edited by hand; consumed by gen_manifest.py
-for i in range(1, 21):
-    pending("C%02d" % i, "check under construction in this round (deterministic-simulation check planned in DESIGN.md §3); not claimed until it runs clean on the unchanged tree")
+CONC = "deterministic simulation: seeded schedule search over AST-inserted scheduling points in synctest bubbles (virtual clock), "
+HIST = "deterministic simulation (history driver): seeded fault-structured operation histories with seeded hidden randomness, "
+NOTE_CONC = ("Sampling, not enumeration. Interleavings are explored at inserted scheduling points (locks, atomics, channel operations, select, go, Broadcast/Wait); "
+             "code between two points is atomic w.r.t. other tasks; the sync.Cond helper goroutine of blockUntilSignaled/subscribe is not preempted. "
+             "Trusted: bin/verif-inst only inserts inert calls; go1.26.8 testing/synctest fake clock; harness oracles. Determinism is probed on every run (3 processes, GOMAXPROCS 1/4/16).")
+NOTE_HIST = ("Sampling, not enumeration. Single driving goroutine: no schedule dimension; the simulator contributes the seeded environment/fault model, control of math/rand, "
+             "reference models / twin runs, bounded-liveness checks, tape shrinking and exact replay. Valid-configuration domains are stated in DESIGN.md §3.")
+
+claim("C01", CONC + "porcupine linearizability of recorded histories against a counting gate + conservation invariants at stable points",
+      "Every Acquire/complete/SetLimit history of a seeded run is checked for linearizability against the atomic counting gate; thousands of schedules per run of the check. Exploration is the right level: the property quantifies over interleavings and limit trajectories, which are sampled with replayable seeds.",
+      NOTE_CONC + " porcupine timeouts (5 s) are counted inconclusive.", "DESIGN.md §3 C01")
+claim("C02", CONC + "ledger-vs-every-layer conservation invariants at stable points and after draining, with timeouts/cancellations placed on release instants",
+      "Conservation is checked at every stable point of every run against an independent ledger, for all limiter stacks and all three outcomes, with give-ups coinciding with releases on the virtual clock.",
+      NOTE_CONC, "DESIGN.md §3 C02")
+claim("C03", HIST + "lock-step reference gate for sequential histories incl. dynamic partitions; " + "porcupine linearizability for concurrent histories",
+      "Every result and every observable count/limit is compared with an executable partition gate after each operation (exact dyadic shares); concurrent histories are checked for linearizability against the same gate.",
+      NOTE_CONC + " Fractions are k/32 so ceil() is float-exact.", "DESIGN.md §3 C03")
+claim("C04", HIST + "bounds oracle after every sample, panics recovered",
+      "Each valid configuration/wrapper combination is driven through fault-structured sample histories (rtt 0, huge, drop-only windows, idle, clock jumps) and the estimate is checked after every sample.",
+      NOTE_HIST, "DESIGN.md §3 C04")
+claim("C05", CONC + "enforced-limit == estimate invariant at stable points for all strategy kinds + OnSample/SetLimit sequence check",
+      "Window-closing completions race under seeded schedules; at every stable point the strategy limit, partition shares and limit gauges must equal the floored estimate.",
+      NOTE_CONC, "DESIGN.md §3 C05")
+claim("C06", HIST + "never-raises check on every drop sample (exact AIMD arithmetic) + bounded-liveness suffix of sustained drops",
+      "Reachable states are produced by seeded prefixes; every drop sample is checked and a sustained drop run must reach the floor within a configuration-derived bound.",
+      NOTE_HIST + " Bounds are generous closed forms (calibrated, DESIGN.md §3 C06/C07).", "DESIGN.md §3 C06")
+claim("C07", HIST + "demand-gate check on every app-limited sample + bounded-liveness suffix of healthy saturated samples",
+      "Reachable states from seeded prefixes; the per-sample growth rules (AIMD, Gradient) and bounded recovery to the ceiling (Vegas, Gradient, Gradient2) are checked.",
+      NOTE_HIST + " Gradient probe interval 1 (probe on every sample) is outside the check's domain.", "DESIGN.md §3 C07")
+claim("C08", HIST + "relational twin-run oracle (same seed, same prefix, final sample differing only in rtt)",
+      "Twin instances are made identical by seeding the library's hidden jitter; the estimate after the higher-rtt sample must not exceed the one after the lower-rtt sample.",
+      NOTE_HIST, "DESIGN.md §3 C08")
+claim("C09", HIST + "virtual-clock reference window model predicting every delegate call and its arguments",
+      "The DefaultLimiter is driven on the synctest fake clock (exact durations incl. 0 and threshold equality) and the WindowedLimit with caller-supplied clocks; a reference fold predicts every update of the algorithm exactly.",
+      NOTE_HIST, "DESIGN.md §3 C09")
+claim("C10", CONC + "stable-point invariant 'no caller blocked while capacity is free' with releases forced into the attempt-failed/asleep window",
+      "The scheduler parks waiters at every scheduling point between the failed attempt and going to sleep and runs whole releases inside that window; no timeout or cancellation is injected before the check.",
+      NOTE_CONC, "DESIGN.md §3 C10")
+claim("C11", CONC + "scripted arrival orders + reference backlog list for every constructor",
+      "Arrival order is pinned by running each arrival to a stable point; after each release the grantee must be the reference backlog's oldest/newest, for every way of constructing the limiter.",
+      NOTE_CONC, "DESIGN.md §3 C11")
+claim("C12", CONC + "blocked-callers <= max backlog at every quiescent point, queue_size gauge == blocked callers at stable points, sequential-model check of solo Acquires",
+      "Simultaneous arrivals are parked between the length check and the push; give-ups coincide with hand-offs on the virtual clock.",
+      NOTE_CONC, "DESIGN.md §3 C12")
+claim("C13", CONC + "exact-instant bound oracle on the virtual clock (arrival+timeout, deadline, cancel instant, equality cases)",
+      "With all capacity held (or released on the same 1 ms grid as the bounds) every blocked call must return refused exactly at its bound; already-cancelled / past-deadline calls at the arrival instant.",
+      NOTE_CONC, "DESIGN.md §3 C13")
+claim("C14", HIST + "event-log protocol oracle over fake handler/invoker/stream and recording limiter doubles with injected refusals and errors; small concurrent part on real limiters",
+      "Every operation's event sequence (acquire on the right limiter, wrapped call, exactly one listener call of the classified kind, unchanged result, refusal short-circuit and status code) is checked.",
+      NOTE_HIST + " Stream classifier mapping: RecvMsg -> stream server classifier, SendMsg -> stream client classifier.", "DESIGN.md §3 C14")
+claim("C15", HIST + "feasible-reset-set observer over RTTNoLoad() (needs no private state)",
+      "RTT streams with step changes; the observer keeps every reset position consistent with the observed baselines; an empty set or an overdue reset is a violation.",
+      NOTE_HIST, "DESIGN.md §3 C15")
+claim("C16", HIST + "listener bookkeeping oracle with late registration through every wrapper combination",
+      "After every sample/SetLimit: estimate changed => every registered listener called, last delivered value == EstimatedLimit(), wrapper estimate == delegate estimate, traced forwarding unchanged.",
+      NOTE_HIST, "DESIGN.md §3 C16")
+claim("C17", CONC + "Go race detector as oracle in a -race build, with the scheduler's own synchronisation hidden from it (RaceDisable / go:norace)",
+      "The race detector decides; the simulator supplies replayable schedules over shared instances of every public type and removes its own happens-before edges. Races whose two accesses never occur in an explored run are missed.",
+      NOTE_CONC + " GORACE suppress_equal_stacks=0 so shrinking/replay see repeated reports.", "DESIGN.md §3 C17")
+claim("C18", HIST + "reference folds per primitive, permutation check for the sample window, Reset==fresh twin oracle, change-flag check",
+      "Each primitive is driven through Add/Get/Reset/Update histories and compared with a reference fold written from its name; reset instances are compared with fresh twins.",
+      NOTE_HIST, "DESIGN.md §3 C18")
+claim("C19", CONC + "held <= limit at every quiescent point and everybody-served at the end of the schedule, for both pools and all orderings",
+      "More callers than the limit arrive (within the backlog bound) with hold times far below the backlog timeout; every caller must be granted.",
+      NOTE_CONC, "DESIGN.md §3 C19")
+claim("C20", CONC + "real go-metrics and datadog statsd client inside the bubble over an in-memory writer, poller goroutine scheduled like a task; " + "recording registry for metric truthfulness",
+      "Part (a): every emitted in-flight/rtt/dropped sample and gauge is compared with the ledger. Part (b): Start/Stop/Register sequences with Stop landing on poll ticks; suppliers log their invocation instants; samples are read back from the backend.",
+      NOTE_CONC + " Third-party client code runs real but un-instrumented.", "DESIGN.md §3 C20")
